@@ -16,9 +16,12 @@
 //!          k `Pass` in-nodes -> core; gkind 0 Graph, 1 StableGraph; fill = one f32 per buffer)
 //!   out:   nbuf then nbuf*64 bit patterns (initial content of the node's own buffers)
 //!   shape: number of buffers of each input
-//!   call:  the bit patterns of all buffers of all inputs for this call (sum(shape)*64 values)
-//! Output: per call `9 nbuf` then one observation per buffer (64 bit patterns, NaN canonical);
-//!         a panic ends the case with `8 code`.
+//!   call:  `op arg` then the bit patterns of all buffers of all inputs for this call (sum(shape)*64 values).
+//!          op: what the graph's owner does to the node's `NodeData::buffers` (a pub Vec<Buffer>) before the
+//!          call: 0 nothing, 1 `resize(arg, Buffer::SILENT)`, 2 `mem::take` for this call, put back afterwards.
+//! Signals are instrumented: every `Signal::next` of every signal node of the case bumps one counter.
+//! Output: per call `9 nbuf`, one observation per buffer (64 bit patterns, NaN canonical), then `7 pulls`
+//!         (total Signal::next calls so far); a panic ends the case with `8 code`.
 use dasp_graph::node::{Delay, GraphNode, Pass, Sum, SumBuffers};
 use dasp_graph::{BoxedNode, BoxedNodeSend, Buffer, Input, Node, NodeData, Processor};
 use dasp_ring_buffer::Fixed;
@@ -94,6 +97,18 @@ thread_local! {
     static SLOTS: [RefCell<Option<Box<dyn Node>>>; 4] = Default::default();
     static NEXT_SLOT: Cell<usize> = Cell::new(0);
     static SEEN: RefCell<Vec<Vec<Vec<i64>>>> = RefCell::new(Vec::new());
+    static PULLS: Cell<i64> = Cell::new(0);
+}
+
+/// counts the frames pulled from the wrapped signal
+struct Counted<S>(S);
+
+impl<S: Signal> Signal for Counted<S> {
+    type Frame = S::Frame;
+    fn next(&mut self) -> S::Frame {
+        PULLS.with(|p| p.set(p.get() + 1));
+        self.0.next()
+    }
 }
 
 fn fwd<const K: usize>(i: &[Input], o: &mut [Buffer]) {
@@ -239,7 +254,7 @@ fn sig_node<const N: usize>(c: &mut Cur, nfr: usize) -> Box<dyn Node> {
             a
         })
         .collect();
-    let s: Box<dyn Signal<Frame = [f32; N]>> = Box::new(dasp_signal::from_iter(frames));
+    let s: Box<dyn Signal<Frame = [f32; N]>> = Box::new(Counted(dasp_signal::from_iter(frames)));
     Box::new(s)
 }
 
@@ -321,7 +336,7 @@ fn base(c: &mut Cur) -> Base {
             Base::Sig(match ch {
                 0 => {
                     let frames: Vec<f32> = (0..nfr).map(|_| f(c.next())).collect();
-                    let s: Box<dyn Signal<Frame = f32>> = Box::new(dasp_signal::from_iter(frames));
+                    let s: Box<dyn Signal<Frame = f32>> = Box::new(Counted(dasp_signal::from_iter(frames)));
                     Box::new(s)
                 }
                 1 => sig_node::<1>(c, nfr),
@@ -398,6 +413,7 @@ fn run(line: &str) -> String {
     assert!(secs.len() >= 4, "case needs wrappers | spec | out | shape");
     NEXT_SLOT.with(|c| c.set(0));
     SEEN.with(|s| s.borrow_mut().clear());
+    PULLS.with(|p| p.set(0));
     // node under test
     let mut spec: Vec<i64> = vec![secs[0].len() as i64];
     spec.extend_from_slice(&secs[0]);
@@ -423,7 +439,14 @@ fn run(line: &str) -> String {
     }
     let mut p = Processor::with_capacity(shape.len() + 1);
     let mut res: Vec<String> = Vec::new();
-    for call in &secs[4..] {
+    for sec in &secs[4..] {
+        let (op, arg, call) = (sec[0], sec[1] as usize, &sec[2..]);
+        let mut saved: Option<Vec<Buffer>> = None;
+        match op {
+            1 => g[t].buffers.resize(arg, Buffer::SILENT),
+            2 => saved = Some(std::mem::take(&mut g[t].buffers)),
+            _ => {}
+        }
         let mut off = 0;
         let mut expect: Vec<Vec<i64>> = Vec::new();
         for (j, &nb) in shape.iter().enumerate() {
@@ -450,7 +473,11 @@ fn run(line: &str) -> String {
                 for b in bufs.iter() {
                     res.push(join(&b.iter().map(|&x| bits(x)).collect::<Vec<_>>()));
                 }
+                res.push(obs(7, &[PULLS.with(|p| p.get())]));
             }
+        }
+        if let Some(v) = saved {
+            g[t].buffers = v;
         }
     }
     // release fn-pointer slots
